@@ -122,6 +122,9 @@ def gen_cases(spec):
                  "IF x = 1 THEN GOTO", "GOTO", "x :", "x : :", ": x", "x := ", "x := 99999999999999999999999", "x := y - 99999999999999999999999", "<P>", "$7", "#0",
                  "x := #0", "x := $0", "DEFINE PRIO 99999999999 a AS b END DEFINE a", "DEFINE a AS $99999999999 END DEFINE a", "DEFINE f <ID> AS $4294967296 := 1 END DEFINE f x", "DEFINE f <ID> <INT> AS $4294967297 END DEFINE x := f y 3",
                  "DEFINE PRIO 4294967296 f <V> AS $0 END DEFINE x := f 1", "DEFINE f <V> AS $8589934592 END DEFINE x := f 1", "STOP STOP", "x := 1 x := 2",
+                 "x0 := RUN __INC__ WITH x1 END", "x0 := RUN __DEC__ WITH END", "x := RUN __INC__ WITH 1 END", "x := RUN f WITH RUN __DEC__ WITH y END END",
+                 "x := RUN __INC__ WITH a, 1, 2 END", "x := RUN __INC__ WITH a, b END", "x := RUN __DEC__ WITH 1, 2 END", "x := RUN __INC__ WITH RUN __INC__ WITH a, 1 END, 2 END",
+                 "PROGRAM __INC__ IN a DO x0 := a END x := RUN __INC__ WITH 1 END", "__INC__ := 1 ; __DEC__ : GOTO __DEC__", "LOOP __INC__ DO x := x + 1 END",
                  "x := 1 PROGRAM f DO STOP END", "\x00", "x := 1\x00; y := 2", "\xff\xfe", "x := \"a\"", "\"", "\"unterminated"]
         names = ["main", "a", "b", "__standards__", "-", "", "none", "#root", "a_file_name_longer_than_fifteen_characters.theo",
                  "/home/user/projects/theo/another quite long path/with spaces/main.theo"]
